@@ -92,15 +92,18 @@ func Core(k int, ns []int, modes []bool, outs []string, maxNonOK int) []Scenario
 
 // Named shapes.
 var (
-	Chain4   = [][]int{nil, {0}, {1}, {2}}
-	Diamond4 = [][]int{nil, {0}, {0}, {1, 2}}
-	FanIn4   = [][]int{nil, nil, nil, {0, 1, 2}}
-	FanOut4  = [][]int{nil, {0}, {0}, {0}}
-	Indep4   = [][]int{nil, nil, nil, nil}
-	Diamond5 = [][]int{nil, {0}, {0}, {1, 2}, {3}}
-	FanIn5   = [][]int{nil, nil, nil, {0, 1, 2}, {3}}
-	DDiam5   = [][]int{nil, {0}, {0}, {1, 2}, {1, 2}}
-	Indep5   = [][]int{nil, nil, nil, nil, nil}
+	Chain4 = [][]int{nil, {0}, {1}, {2}}
+	// JoinTail4: a consumer of two providers with a consumer of its own (a job two levels below a failure
+	// whose middle job still waits for the other provider)
+	JoinTail4 = [][]int{nil, nil, {0, 1}, {2}}
+	Diamond4  = [][]int{nil, {0}, {0}, {1, 2}}
+	FanIn4    = [][]int{nil, nil, nil, {0, 1, 2}}
+	FanOut4   = [][]int{nil, {0}, {0}, {0}}
+	Indep4    = [][]int{nil, nil, nil, nil}
+	Diamond5  = [][]int{nil, {0}, {0}, {1, 2}, {3}}
+	FanIn5    = [][]int{nil, nil, nil, {0, 1, 2}, {3}}
+	DDiam5    = [][]int{nil, {0}, {0}, {1, 2}, {1, 2}}
+	Indep5    = [][]int{nil, nil, nil, nil, nil}
 )
 
 func shapes(gs [][][]int, ns []int, modes []bool, outs []string, maxNonOK int) []Scenario {
@@ -352,7 +355,7 @@ func Family(prop, tier string) ([]Scenario, error) {
 		out = append(out, Core(3, n12, both, okerr, -1)...)
 		out = append(out, dupDeps(n12)...)
 		if !th {
-			out = append(out, shapes([][][]int{Chain4, Diamond4, FanIn4, FanOut4}, []int{2}, both, okerr, 1)...)
+			out = append(out, shapes([][][]int{Chain4, Diamond4, FanIn4, FanOut4, JoinTail4}, []int{2}, both, okerr, 1)...)
 		} else {
 			out = append(out, Core(4, n12, both, okerr, 1)...)
 			out = append(out, shapes([][][]int{Diamond5, FanIn5}, []int{2}, both, okerr, 0)...)
@@ -517,7 +520,7 @@ func Family(prop, tier string) ([]Scenario, error) {
 		out = append(out, Core(1, n12, []bool{true}, okerr, -1)...)
 		out = append(out, Core(2, n12, []bool{true}, []string{OK, Err, Goexit}, -1)...)
 		out = append(out, Core(3, n12, []bool{true}, okerr, -1)...)
-		out = append(out, shapes([][][]int{Indep4, Diamond4, FanOut4}, []int{2}, []bool{true}, okerr, 1)...)
+		out = append(out, shapes([][][]int{Indep4, Diamond4, FanOut4, JoinTail4, Chain4}, []int{2}, []bool{true}, okerr, 1)...)
 		for _, s := range dupDeps(n12) {
 			if s.COE {
 				out = append(out, s)
